@@ -45,6 +45,7 @@ cfgs["C20"] = {"functions": ["x/rvesting/types.validatePerBlockReward", "x/rvest
   "assumptions": ["bank.SendCoinsFromModuleToModule / GetBalance semantics (axioms/bank_rvesting.axm); both module accounts exist (app.go maccPerms); pool and fee-collector addresses differ; params stored for x/rvesting passed validatePerBlockReward (SetParamSet / param-change validation run the validator; its contract is proved)"]}
 cfgs["C15"] = {"functions": RV,
   "assumptions": ["SDK: gov runs a proposal handler once at submission (dry-run) and in EndBlock without recover; SetParamSet panics unless each field validator passes"]}
+cfgs["C16"] = {"functions": ["x/aggregate/keeper.(Keeper).OnRecvPacket", "x/aggregate.(IBCMiddleware).OnRecvPacket"]}
 for k, v in cfgs.items():
     v["id"] = k
     # preserve hand-edited extra keys
